@@ -10,6 +10,7 @@ import (
 	"runtime"
 	"runtime/debug"
 	"sort"
+	"strconv"
 	"strings"
 	"sync"
 	"sync/atomic"
@@ -199,6 +200,21 @@ func doOp(st *gstate, op int, d []byte, salt uint64) uint64 {
 		p, e := rjson.SkipValueFast(d, buf)
 		return hashRes(p, e, 0)
 	case 3:
+		if salt>>56&1 == 1 {
+			// a document whose 192 short keys occur nowhere else in the process (derived from the salt):
+			// process-wide tables keyed by member names keep growing and reach their limits while other
+			// goroutines decode (seeded change C18r8-m2: an interning table reset outside its lock once
+			// it holds 65,536 keys)
+			doc := make([]byte, 0, 192*24)
+			doc = append(doc, '{')
+			for j := 0; j < 192; j++ {
+				doc = strconv.AppendUint(append(doc, '"', 'k'), salt^uint64(j)*0x9e3779b97f4a7c15, 36)
+				doc = append(doc, '"', ':', byte('0'+j%10), ',')
+			}
+			doc = append(doc, `"z":[]}`...)
+			v, p, e := rjson.ReadValue(doc)
+			return hashRes(p, e, hashTree(v))
+		}
 		v, p, e := rjson.ReadValue(d)
 		x := hashRes(p, e, hashTree(v))
 		if salt>>57&1 == 1 {
